@@ -638,7 +638,41 @@ impl<'tcx> Cx<'tcx> {
                     "{\"slice\":\"opaque\"}".to_string()
                 }
                 ConstValue::ZeroSized => "{\"zst\":1}".to_string(),
-                ConstValue::Indirect { .. } => "{\"opaque\":\"indirect-ref\"}".to_string(),
+                ConstValue::Indirect { alloc_id, offset } => {
+                    // a (possibly fat) pointer stored in memory: pointer word [+ length word]
+                    if let GlobalAlloc::Memory(alloc) = tcx.global_alloc(alloc_id) {
+                        let a = alloc.inner();
+                        let start = offset.bytes() as usize;
+                        if start + 8 <= a.len() {
+                            if let Some(prov) = a.provenance().get_ptr(rustc_abi::Size::from_bytes(start as u64)) {
+                                let rd = |at: usize| -> u64 {
+                                    let b = a.inspect_with_uninit_and_ptr_outside_interpreter(at..at + 8);
+                                    let mut x: u64 = 0;
+                                    for (j, v) in b.iter().enumerate() {
+                                        x |= (*v as u64) << (8 * j);
+                                    }
+                                    x
+                                };
+                                let target_off = rd(start);
+                                let unsized_ = matches!(inner.kind(), ty::Slice(_) | ty::Str);
+                                if unsized_ && start + 16 <= a.len() {
+                                    let len = rd(start + 8);
+                                    if target_off == 0 {
+                                        let cv2 = ConstValue::Slice { alloc_id: prov.alloc_id(), meta: len };
+                                        return self.const_value(cv2, t, depth + 1);
+                                    }
+                                } else if !unsized_ {
+                                    let ptr = rustc_middle::mir::interpret::Pointer::new(
+                                        prov,
+                                        rustc_abi::Size::from_bytes(target_off),
+                                    );
+                                    return self.scalar_json(Scalar::from_pointer(ptr, &tcx), t);
+                                }
+                            }
+                        }
+                    }
+                    "{\"opaque\":\"indirect-ref\"}".to_string()
+                }
             },
             _ => match cv {
                 ConstValue::Scalar(s) => self.scalar_json(s, t),
